@@ -54,8 +54,10 @@ Print Assumptions C01_size_limit.
    any bytes is accepted by the model of validate_body_helper, which stops exactly
    at the end of the encoding.  Premises beyond the specification's notion of a
    well-formed value ([wire_ok]): string bytes are < 256, signature strings pass
-   the C automaton, and non-empty arrays of fixed-size elements (the validator's
-   fast path) are not covered yet -- hence "_partial". *)
+   the C automaton (its equivalence with the grammar is exhaustive-small-scope
+   checked, not yet a theorem), and an array's element type has its tabulated
+   alignment -- hence "_partial".  Arrays of fixed-size elements (the validator's
+   fast path, incl. the boolean-array loop) are covered. *)
 Theorem C01_value_complete_partial : forall le v d depth pos rest,
   wfb le depth pos v = true -> wire_ok v = true -> (height v < d)%nat ->
   vb le d (ty_of_val v) depth (curof pos (enc le v pos ++ rest)) = inl (curof (pos + nlen (enc le v pos)) rest).
@@ -68,7 +70,7 @@ Proof. exact validate_body_complete. Qed.
 Print Assumptions C01_body_complete_partial.
 
 Definition ex_val : val :=
-  VStruct [VNum 121 5; VArr (TDict 115 TVariant) [VDictE (VStr 115 [107]) (VVar (TArray (TBasic 115)) (VArr (TBasic 115) [VStr 115 [97]; VStr 115 []]))];
+  VStruct [VNum 121 5; VArr (TBasic 98) [VNum 98 1; VNum 98 0]; VArr (TBasic 120) [VNum 120 7]; VArr (TDict 115 TVariant) [VDictE (VStr 115 [107]) (VVar (TArray (TBasic 115)) (VArr (TBasic 115) [VStr 115 [97]; VStr 115 []]))];
            VStr 111 [47; 97]; VNum 100 4609434218613702656].
 Example ex_val_ok : wfb true 0 3 ex_val = true /\ wire_ok ex_val = true. Proof. split; vm_compute; reflexivity. Qed.
 
